@@ -210,6 +210,104 @@ PROPS["C11"] = dict(
     level_note="Trusted: perl, the Text::CSV stand-in, the independent CSV reader; libidn2 for U-label rows.",
 )
 
+PROPS["C01"] = dict(
+    level="exploration",
+    default_binary="c01",
+    binaries={"c01": dict(src=["props/c01.cpp"], variants=["dflt"])},
+    stages=[
+        stage("corpus"),
+        stage("lengths"),
+        stage("bounded"),
+        stage("random", kind="rc", quick=10000, thorough=100000, max_size=100),
+    ],
+    rule="Addresses: all strings of length 0-7 (quick) / 0-8 (thorough) over {a @ . [ ] 1 : \"}; local parts of 58-72 octets in 7 word shapes "
+         "(atom, dotted, quoted, quoted pair, 2- and 4-byte UTF-8 whose byte count crosses 64 while the character count does not) x 5 domains; "
+         "'@' placement shapes; grammar-based random addresses (valid / mutated local part x host, IDN host, literal; extra '@' at either end "
+         "or anywhere; raw byte strings) with a random allow_tld; the repository's address corpus. Each is run in 4 modes x tld_check {0,1} through "
+         "eav_is_email and is_<mode>_email. Non-trivial = at least one '@' with non-empty text on both sides; distinct by address hash. Health "
+         "check: >= 10% of random cases have a local part on which the four reference scanners disagree (pins the mode wiring).",
+    assumptions=["structural model uses the reference recognisers of oracle/ref.hpp; for mode 6531 host names only 'accepted => A-label form valid' is demanded",
+                 "composition uses the library's own public per-part validators called as the in-tree callers do (end on '@' / NUL)",
+                 "address literals between the two reference bounds may go either way"],
+    min_evaluations=dict(quick=3_000_000, thorough=30_000_000),
+    technique="model-based (reference split + per-part recognisers) and differential (high-level call vs composition of the public per-part validators vs direct per-mode call), bounded-exhaustive + rapidcheck generation",
+    level_text="Exploration with two explicit oracles (an independent structural model and the composition of the library's own validators); short "
+               "strings over the structural alphabet are enumerated completely.",
+    level_note="Trusted: oracle/ref.hpp, libidn2 for A-label forms, sanitizers, shim.",
+)
+
+PROPS["C12"] = dict(
+    level="exploration",
+    default_binary="c12",
+    binaries={"c12": dict(src=["props/c12.cpp"], variants=["dflt"])},
+    stages=[
+        stage("corpus"),
+        stage("bytes"),
+        stage("bounded"),
+        stage("random", kind="rc", quick=10000, thorough=100000, max_size=100),
+    ],
+    rule="All strings of length <= 5 (quick) / <= 6 (thorough) over the 12-class pure-ASCII alphabet {a 1 . - @ [ ] : SP ( 0x01 _}; every ASCII byte "
+         "except DQUOTE/backslash at 3 positions of the local part x 18 domain shapes; grammar-based random addresses of the C01 generator (half of "
+         "them steered into the 'pure ASCII, no quote/backslash' population) with default and random allow_tld; the repository corpus; all in 4 modes "
+         "x tld_check {0,1}. Non-trivial = the address has a non-empty domain part; distinct by address hash.",
+    assumptions=["pure differential between the modes of one build; what each mode should accept is pinned by C02-C05",
+                 "mode 6531 may answer EEAV_IDN_ERROR where the ASCII modes accept or report a domain/TLD code (host names only)"],
+    min_evaluations=dict(quick=3_000_000, thorough=30_000_000),
+    technique="cross-mode differential and inclusion relations over bounded-exhaustive pure-ASCII strings and rapidcheck-generated addresses",
+    level_text="Exploration by differential relations between the four modes; the short pure-ASCII string space is enumerated completely.",
+    level_note="Trusted: sanitizers, shim; reference recognisers only select the sub-population for relation (iii).",
+)
+
+PROPS["C15"] = dict(
+    level="exploration",
+    default_binary="c15",
+    binaries={"c15": dict(src=["props/c15.cpp"], variants=["dflt"])},
+    stages=[
+        stage("setup", workers=1),
+        stage("codes", workers=1),
+        stage("targets"),
+        stage("random", kind="rc", quick=10000, thorough=100000, max_size=100),
+    ],
+    rule="Inputs: the repository corpus and ~45 hand-picked addresses (one or more per error code), each with every one-byte insertion / replacement "
+         "from {. \" @ SP - 0x80 \\ [ 0x01} and every one-byte deletion; grammar-based random addresses of the C01 generator with default and "
+         "random allow_tld; all in 4 modes x tld_check {0,1}. eav_setup with 16 rfc values (4 defined, -1, 4, 5, 7, 100, 255, 256, 65536, INT_MAX, "
+         "INT_MIN, ...) after 7 kinds of preceding outcome. All 35 codes through a caller-installed callback (ASCII and UTF-8 dispatch) for the "
+         "message rules. Non-trivial = a rejected (input, mode, tld_check) triple; distinct by (error code, mode, tld_check, input) hash. The "
+         "classes 'code:<NAME>' in this file list which codes real inputs produced.",
+    assumptions=["necessary conditions per code are written from the property statement and the message texts; domain codes are judged on the "
+                 "A-label form in mode 6531 (libidn2 trusted)", "message wording is not frozen: only 'same code => same text', pairwise different "
+                 "texts, and the keywords local / domain|label / ip / TLD / RFC plus the three phrases quoted in the statement are required",
+                 "root-dot spellings are not judged for TLD-level codes (outside C07/C09)"],
+    min_evaluations=dict(quick=3_000_000, thorough=30_000_000),
+    technique="per-error-code necessary-condition predicates (independent of the implementation) + differential against the public per-part validators, over mutation-based and rapidcheck-generated inputs",
+    level_text="Exploration: every rejected outcome is checked against a predicate on the input that must hold if the reported reason is truthful; "
+               "one-edit neighbourhoods of inputs for every code are enumerated, the rest sampled.",
+    level_note="Trusted: oracle/ref.hpp, the predicates in props/c15.cpp, libidn2 (messages and A-label forms), sanitizers, shim.",
+)
+
+PROPS["C16"] = dict(
+    level="exploration",
+    default_binary="c16",
+    binaries={"c16": dict(src=["props/c16.cpp"], variants=["dflt", "extra"])},
+    stages=[
+        stage("corpus"),
+        stage("forms"),
+        stage("bounded"),
+        stage("random", kind="rc", quick=8000, thorough=80000, max_size=100),
+    ],
+    rule="All strings of length <= 6 (quick) / <= 7 (thorough) over {a @ . [ ] 1 : \"}; 8 local-part forms x 23 domain forms (host, reserved, "
+         "unlisted, single label, IDN in both spellings, IPv4/IPv6 literals tagged and untagged, malformed literals, root dot) x 3 masks; "
+         "grammar-based random addresses; the repository corpus; each in 4 modes x tld_check {0,1}, through eav_is_email and is_<mode>_email, in the "
+         "default build and the EAV_EXTRA build (two variants linked into one process). Non-trivial = accepted in some mode, or rejected with a "
+         "local part that is valid in some mode; distinct by address hash.",
+    assumptions=["the form of the domain (host / IPv4 / IPv6) and 'syntactically invalid' come from the reference recognisers of oracle/ref.hpp",
+                 "flags of syntactically valid addresses rejected for FQDN/TLD reasons are not specified by the statement and not judged"],
+    min_evaluations=dict(quick=3_000_000, thorough=30_000_000),
+    technique="rule-based oracle over the result record + differential between the default and the EAV_EXTRA build, bounded-exhaustive + rapidcheck generation",
+    level_text="Exploration against explicit record rules; short strings over the structural alphabet enumerated completely in both builds.",
+    level_note="Trusted: oracle/ref.hpp, libidn2 (A-label forms), sanitizers, shim (copies lpart/domain out of the record).",
+)
+
 
 def stages_for(pid, tier):
     out = []
